@@ -127,7 +127,15 @@ def finish(ctx: Ctx, explanation: str, rule_text: str, digests: Dict[str, str]) 
     for o in failures:
         kk = (ctx.prop, o.rule, o.key)
         if kk in known_keys:
-            listed.append((o, known_keys[kk]))
+            k = known_keys[kk]
+            # a known finding may enumerate the failing variants of its call site: anything beyond them is new
+            if "variants" in k and "variants" in o.extra:
+                new = sorted(set(o.extra["variants"]) - set(k["variants"]))
+                if new:
+                    o.detail = f"NEW variants beyond known finding {k.get('id', '')}: {', '.join(new)[:400]} :: " + o.detail
+                    unlisted.append(o)
+                    continue
+            listed.append((o, k))
         else:
             unlisted.append(o)
 
